@@ -57,6 +57,28 @@ def main():
                 bad += 1
                 print(f'{name}: NOT REPORTED ({r})')
     print(f'{kind}: {len(results) - bad} of {len(results)} ' + ('silent' if kind == 'benign' else 'reported'))
+    if kind == 'seeded' and '--write' in sys.argv:
+        # record which rules report each stored change (meta.json caught_by) and regenerate seeded/INDEX.md
+        rows = []
+        for (name, r), d in zip(results, dirs):
+            mp = os.path.join(d, 'meta.json')
+            meta = json.load(open(mp))
+            caught = [x.replace(':', ': ', 1).replace(',', ', ') for x in r.split()] if r and not r.startswith('PATCH DOES') else []
+            caught = [c for c in caught if 'ANALYSIS-ERROR' not in c and 'CRASH' not in c]
+            meta['caught_by'] = caught
+            json.dump(meta, open(mp, 'w'), indent=1)
+            rows.append((name, meta['property'], '; '.join(caught) if caught else ('MISSED ' + r).strip(), meta.get('breaks', '')))
+        with open(os.path.join(V, 'seeded', 'INDEX.md'), 'w') as fh:
+            fh.write('# Seeded changes and the rules that report them\n\n'
+                     'Each change was written by an independent sub-agent (property text + scratch worktree only), confirmed with '
+                     '`tools/verify_seed.sh` in a scratch worktree (demo fails with the patch, passes without, the pinned suite still '
+                     'passes), and replayed against the check of its property with `tools/replay_all.py seeded --write` '
+                     '(in memory; /repo is not touched).\n\n'
+                     '| seed | property | reported by | what the change does |\n|---|---|---|---|\n')
+            for name, prop, caught, what in rows:
+                fh.write(f'| {name} | {prop} | {caught} | {what[:220].replace("|", "/")} |\n')
+            m = len([r_ for r_ in rows if not r_[2].startswith('MISSED')])
+            fh.write(f'\n{m} of {len(rows)} seeded changes are reported by the check of the property they break.\n')
 
 
 if __name__ == '__main__':
